@@ -13,6 +13,7 @@
 (*   F4  condition on leaf L: every comparator x every threshold leaf      *)
 (*   F5  condition path shapes x comparators x thresholds                  *)
 (*   F6  three bodies x op pairs (first op from Q1, second from Q2)        *)
+(*   F7  body {n: L} x (op that rewrites n in place) x (op on n again)     *)
 (* A case is (b, i, j) = body index, first index, second index.  Sharding  *)
 (* and seeded sampling select cases by a hash of (b, i, j, seed).          *)
 (***************************************************************************)
@@ -131,6 +132,16 @@ F3Ops == [i \in 1..Len(LP) |-> Op("REMOVE_VAL", P1(fd("t")), LP[i])] \o
             Op("REMOVE_AT", P2(fd("t"), ix(-1)), EmptyMap), Op("DELETE", P2(fd("t"), ix(1)), EmptyMap),
             Op("APPEND", P2(fd("t"), SegP), L("pfix", 0, 1)), Op("PREPEND", P2(fd("t"), SegP), M1("x", L("pfix", 0, 1))) >>
 
+\* F7: a second op on the very node the first op rewrote in place (type code, class and kind of the node
+\* are those of what the first op wrote)
+F7A == << Set1(P1(fd("n")), L("i8", 0, 5)), Set1(P1(fd("n")), L("u16", 0, 300)), Set1(P1(fd("n")), L("f32", 0, 3)),
+          Set1(P1(fd("n")), L("i64", 4, 0)), Set1(P1(fd("n")), L("fstr", 0, 1)), Set1(P1(fd("n")), L("pfix", 0, 5)),
+          Op("INC", P1(fd("n")), L("pfix", 0, 1)), Op("INC", P1(fd("n")), L("i8", 0, 1)), Op("INC", P1(fd("n")), L("f64", 0, 3)),
+          Op("INC", P1(fd("n")), L("i16", 0, -300)), Op("INC", P1(fd("n")), L("u16", 0, 1000)) >>
+F7B == [i \in 1..Len(DP) |-> Op("INC", P1(fd("n")), DP[i])] \o
+       << Op("DELETE", P1(fd("n")), EmptyMap), Set1(P1(fd("n")), L("nil", 0, 0)), Op("MERGE", P1(fd("n")), M1("x", L("pfix", 0, 1))),
+          Op("REMOVE_VAL", P1(fd("n")), L("pfix", 0, 1)), Op("APPEND", P2(fd("n"), SegP), L("pfix", 0, 1)) >>
+
 \* conditions
 CK == << "EQ", "NE", "GT", "GE", "LT", "LE", "EX", "NX" >>
 Cnd(op, p, th) == [op |-> op, p |-> p, th |-> th]
@@ -193,21 +204,29 @@ F0 == << Wit(T1(NaN64), CondOps, Cnd("EQ", P1(fd("n")), L("f64", 0, 3))),       
          Wit(T1(L("pfix", 0, 5)), <<Op("INC", P1(fd("n")), L("pfix", 0, 1))>>, NoCond),            \* fixint target: 64-bit code
          Wit(T1(L("i8", 0, 5)), <<Op("MERGE", P1(fd("m")), XMapTr)>>, NoCond),                     \* LenientTrailing
          Wit(T1(L("i8", 0, 5)), <<Op("DELETE", P2(fd("t"), ix(7)), EmptyMap)>>, NoCond),           \* DeleteOobNoop
-         Wit(T1(L("i8", 0, 5)), <<Set1(P2(fd("t"), ix(-1)), L("nil", 0, 0))>>, NoCond) >>          \* SetIndexRejected
+         Wit(T1(L("i8", 0, 5)), <<Set1(P2(fd("t"), ix(-1)), L("nil", 0, 0))>>, NoCond),            \* SetIndexRejected
+         \* a node rewritten in place by an earlier op of the same patch keeps behaving as what it now is
+         Wit(T1(L("i8", 0, 5)), <<Op("INC", P1(fd("n")), L("i8", 0, 1)), Op("INC", P1(fd("n")), L("i8", 0, 1))>>, NoCond),
+         Wit(T1(L("i8", 0, 5)), <<Set1(P1(fd("n")), L("u16", 0, 300)), Op("INC", P1(fd("n")), L("u8", 0, 1))>>, NoCond),
+         Wit(T1(L("fstr", 0, 1)), <<Set1(P1(fd("n")), L("f32", 0, 3)), Op("INC", P1(fd("n")), L("f64", 0, 3))>>, NoCond),
+         Wit(T1(L("i8", 0, 5)), <<Set1(P2(fd("t"), ix(1)), L("i32", 0, 7)), Op("INC", P2(fd("t"), ix(1)), L("i8", 0, -1))>>, NoCond),
+         Wit(T1(L("i8", 0, 5)), <<Set1(P1(fd("n")), L("s16", 0, 3)), Op("REMOVE_VAL", P1(fd("t")), L("pfix", 0, 1)),
+                                  Op("INC", P2(fd("m"), fd("x")), L("i8", 0, 1)), Op("INC", P2(fd("m"), fd("x")), L("i16", 0, -300))>>, NoCond) >>
 
-Fams == <<"F0", "F1", "F2", "F3", "F4", "F5", "F6">>
+Fams == <<"F0", "F1", "F2", "F3", "F4", "F5", "F6", "F7">>
 NB(fam) == CASE fam = "F0" -> 1 [] fam = "F1" -> Len(B3) [] fam = "F2" -> Len(LP) [] fam = "F3" -> Len(LP)
-             [] fam = "F4" -> Len(LP) [] fam = "F5" -> Len(B3) [] fam = "F6" -> Len(B3)
+             [] fam = "F4" -> Len(LP) [] fam = "F5" -> Len(B3) [] fam = "F6" -> Len(B3) [] fam = "F7" -> Len(LP)
 NI(fam) == CASE fam = "F0" -> Len(F0) [] fam = "F1" -> NOps(PP, VP) [] fam = "F2" -> Len(F2Ops) [] fam = "F3" -> Len(F3Ops)
-             [] fam = "F4" -> Len(F4Conds) [] fam = "F5" -> Len(F5Conds) [] fam = "F6" -> Len(Q1)
-NJ(fam) == IF fam = "F6" THEN NOps(PQ2, VQ2) ELSE 1
+             [] fam = "F4" -> Len(F4Conds) [] fam = "F5" -> Len(F5Conds) [] fam = "F6" -> Len(Q1) [] fam = "F7" -> Len(F7A)
+NJ(fam) == IF fam = "F6" THEN NOps(PQ2, VQ2) ELSE IF fam = "F7" THEN Len(F7B) ELSE 1
 
 BodyOf(fam, b, i) == CASE fam = "F0" -> F0[i].body [] fam \in {"F1", "F5", "F6"} -> B3[b]
-                       [] fam \in {"F2", "F4"} -> T1(LP[b]) [] fam = "F3" -> T2(LP[b])
+                       [] fam \in {"F2", "F4", "F7"} -> T1(LP[b]) [] fam = "F3" -> T2(LP[b])
 OpsOf(fam, i, j) == CASE fam = "F0" -> F0[i].ops
                       [] fam = "F1" -> <<OpAt(PP, VP, i)>> [] fam = "F2" -> <<F2Ops[i]>> [] fam = "F3" -> <<F3Ops[i]>>
                       [] fam \in {"F4", "F5"} -> CondOps
                       [] fam = "F6" -> <<Q1[i], OpAt(PQ2, VQ2, j)>>
+                      [] fam = "F7" -> <<F7A[i], F7B[j]>>
 CondOf(fam, i) == CASE fam = "F0" -> F0[i].cond [] fam = "F4" -> F4Conds[i] [] fam = "F5" -> F5Conds[i] [] OTHER -> NoCond
 
 \* selection: per-family rate (per mille, 0 = family not selected), sharding and seeded sampling by a
